@@ -362,6 +362,8 @@ class ConvexSpheropolyhedron(Shape3D):
         self._polyhedron.centroid = np.array([0, 0, 0])
         data = self.to_json(["vertices", "radius", "volume"])
         hoomd_dict = _map_dict_keys(data, key_mapping=_hoomd_dict_mapping)
+        # Copy: the live vertex array is moved back to the original centroid below.
+        hoomd_dict["vertices"] = hoomd_dict["vertices"].copy()
         hoomd_dict["centroid"] = [0, 0, 0]
 
         self._polyhedron.centroid = old_centroid
